@@ -329,9 +329,9 @@ fn check_series(fam: &str, word: &[u8], x: Vec<X>, ctx: &mut Ctx) {
                 }
             }
         }
-        // two-series kernels: second series of length len-1, len, len+1 (a reduced min_periods set)
+        // two-series kernels: second series of length len-1 ..= len+3 (a reduced min_periods set)
         for mp in [None, Some(0), Some(w)] {
-            for dl in [-1i32, 0, 1] {
+            for dl in [-1i32, 0, 1, 2, 3] {
                 if len as i32 + dl < 0 {
                     continue;
                 }
@@ -384,7 +384,11 @@ fn check_layouts(fam: &str, word: &[u8], x: &[X], ctx: &mut Ctx) {
     let len = x.len();
     ctx.fam(fam).states += 1;
     ctx.nontrivial(fam, mix(hash_bytes(word), hash_u64s(&x.iter().map(|v| v.map_or(7, |a| a.to_bits())).collect::<Vec<_>>())));
-    let ws: Vec<usize> = if len > 8 { vec![1, 3, 17, len + 1] } else { vec![1, 2, len + 1] };
+    let mut ws: Vec<usize> = if len > 8 { vec![1, 3, 17, len + 1] } else { vec![1, 2, len + 1] };
+    if len <= 3 {
+        // "unbounded" windows (sizes that do not survive a signed or narrower conversion)
+        ws.extend([usize::MAX, 1usize << 63]);
+    }
     let second: Vec<X> = x.iter().map(|v| v.map(|a| a + 1.0).or(Some(1.0))).collect();
     for (lname, container, kind) in LAYOUTS {
         for &w in &ws {
@@ -491,8 +495,8 @@ fn main() {
         total.merge(par_items(&items, run.threads, |(_l, x), ctx| check_layouts("caller-layouts", &[], x, ctx)));
     }
     let meta = Meta {
-        rule: "history tree of every word over {null,0,1,2}; at each word every rolling entry point (null-aware, plain, two-series), vrank, vpartition, varg_partition, vquantile, Spearman vcorr and half_life run (a) on an instrumented input container recording every uget / uslice and (b) on real Vec / Array1 inputs (fast paths), always into an instrumented output container recording every uset, via the returned and the caller-buffer path; windows 0..=len+3, every min_periods, k in 0..=len+2, second series of length len-1 / len / len+1. The same on long structured series (40 / 270 elements, windows 0, 1, 2, 16, 17, 255..257, len-1..len+3, k around 16 and len). Oracle (monitor): no recorded fault - no index >= len, no slice outside 0<=start<=end<=len, no write outside the buffer, every slot written exactly once at assume_init. Transitions = instrumented accesses observed. Non-trivial = distinct words.".into(),
-        bounds: json!({"alphabet": json_word(&fam.alpha), "L": fam.max_len, "window": "0..=len+3", "k": "0..=len+2", "second_series_len": ["len-1", "len", "len+1"], "inputs": ["ProbeVec", "Vec", "Array1"], "paths": ["Ret", "Buf"]}),
+        rule: "history tree of every word over {null,0,1,2}; at each word every rolling entry point (null-aware, plain, two-series), vrank, vpartition, varg_partition, vquantile, Spearman vcorr and half_life run (a) on an instrumented input container recording every uget / uslice and (b) on real Vec / Array1 inputs (fast paths), always into an instrumented output container recording every uset, via the returned and the caller-buffer path; windows 0..=len+3, every min_periods, k in 0..=len+2, second series of length len-1 ..= len+3. The same on long structured series (40 / 270 elements, windows 0, 1, 2, 16, 17, 255..257, len-1..len+3, k around 16 and len). Oracle (monitor): no recorded fault - no index >= len, no slice outside 0<=start<=end<=len, no write outside the buffer, every slot written exactly once at assume_init. Transitions = instrumented accesses observed. Non-trivial = distinct words.".into(),
+        bounds: json!({"alphabet": json_word(&fam.alpha), "L": fam.max_len, "window": "0..=len+3", "k": "0..=len+2", "second_series_len": ["len-1", "len", "len+1", "len+2", "len+3"], "inputs": ["ProbeVec", "Vec", "Array1"], "paths": ["Ret", "Buf"]}),
         assumptions: vec![
             "panics are not judged here unless a fault was recorded first (clean panics on degenerate parameters are allowed by the property; other panics belong to C05/C20)".into(),
             "accesses a back end makes to its own storage through its own uget are outside the monitor (std debug assertions are the tripwire)".into(),
